@@ -123,12 +123,12 @@ def main():
     try:
         ra = tier_a(prop, cfg.get("tier_a"), a.tier)
         extra = []
-        if cfg.get("regtrans"):
+        if cfg.get("regtrans") and os.path.exists(os.path.join(HERE, "pyvc", "regtrans.py")):
             r = run_json([common.VT_PY, "-m", "pyvc.regtrans", "--prop", prop, "--out"], env=dict(os.environ, PYTHONPATH=f"{HERE}:{REPO}", VERIF_REPO=REPO), timeout=1800)
             if r[0] is None:
                 raise RuntimeError("regtrans failed:\n" + r[1])
             extra.append(r[0])
-        if cfg.get("projection"):
+        if cfg.get("projection") and os.path.exists(os.path.join(HERE, "pyvc", "projection.py")):
             r = run_json([common.VT_PY, "-m", "pyvc.projection", "--out"], env=dict(os.environ, PYTHONPATH=f"{HERE}:{REPO}", VERIF_REPO=REPO), timeout=1800)
             if r[0] is None:
                 raise RuntimeError("projection failed:\n" + r[1])
@@ -149,6 +149,26 @@ def main():
             continue
         solver_time += res.get("solver_time_s", 0)
         for f in res["functions"]:
+            if f.get("projection"):
+                # projection-mode obligations over-approximate: a refutation is a violation only if the method was proved
+                # (or had a better bound) at baseline; otherwise it is UNDECIDED and left to the bounded check
+                b = base.get(prop, {}).get(f["function"])
+                o = f["obligations"][0]
+                n_obl += 1
+                functions.append({"function": f["function"], "sha256": f["sha256"][:16], "status": f["status"], "obligations": 1,
+                                  "discharged": int(o["verdict"] == "discharged"), "guards": 0, "guard_undecided": 0, "delta_lo": f.get("delta_lo")})
+                if o["verdict"] == "discharged":
+                    n_dis += 1
+                    backends["interval"] = backends.get("interval", 0) + 1
+                elif b is not None and b.get("delta_lo") is not None and f.get("delta_lo", -10**9) < b["delta_lo"]:
+                    violations.append({"key": okey(f["function"], o), "tier": "A", "function": f["function"],
+                                       "what": f"index bound regressed: {o['text']} | was delta >= {b['delta_lo']}, now {f.get('delta_lo')} | {o['model']}",
+                                       "obligation": o["id"], "solver": "interval", "model": o["model"], "source_sha256": f["sha256"], "no_failing_input": True})
+                else:
+                    undecided.append(f"{f['function']}: projection cannot show monotonicity (delta_lo={f.get('delta_lo')}; keyword un-consume convention or lost correlation)")
+                    demoted.append(f["function"])
+                assumptions.update(f.get("assumptions", []))
+                continue
             obs = [o for o in f["obligations"] if o["kind"] not in ("cover", "mustfail")]
             guards = [o for o in f["obligations"] if o["kind"] in ("cover", "mustfail")]
             d = [o for o in obs if o["verdict"] == "discharged"]
@@ -223,7 +243,8 @@ def main():
     common.write_evidence(prop, a.tier, level, cov, base_assumptions + sorted(assumptions), time.time() - t0, len(violations))
 
     if a.write_baseline:
-        base[prop] = {f["function"]: {"sha256": f["sha256"], "obligations": f["obligations"], "discharged": f["discharged"]} for f in functions}
+        base[prop] = {f["function"]: dict({"sha256": f["sha256"], "obligations": f["obligations"], "discharged": f["discharged"]},
+                                          **({"delta_lo": f["delta_lo"]} if f.get("delta_lo") is not None else {})) for f in functions}
         os.makedirs(os.path.dirname(BASELINE), exist_ok=True)
         json.dump(base, open(BASELINE, "w"), indent=1, sort_keys=True)
 
